@@ -1,6 +1,7 @@
 package props
 
 import (
+	"os"
 	"fmt"
 	"sort"
 	"time"
@@ -128,7 +129,26 @@ func (m *memRig) certify(s *common.Snapshot, drop int, corrupt int) *crypto.Cosi
 		k = 1
 	}
 	perm := m.rng.Perm(len(nodes))[:k]
+	// the chain's own node takes part in its certificate (see injector.signersFor)
+	own := -1
+	for pos, cn := range nodes {
+		if cn.IdForNetwork == s.NodeId {
+			own = pos
+		}
+	}
+	if own >= 0 && drop == 0 {
+		has := false
+		for _, p := range perm {
+			has = has || p == own
+		}
+		if !has {
+			perm[m.rng.IntN(len(perm))] = own
+		}
+	}
 	sort.Ints(perm)
+	if os.Getenv("VERIF_DEBUG") != "" {
+		fmt.Fprintf(os.Stderr, "certify chain %s round %d nodes %d T %d own %d drop %d perm %v\n", s.NodeId.String()[:6], s.RoundNumber, len(nodes), T, own, drop, perm)
+	}
 	sum := edwards25519.NewScalar()
 	for i, pos := range perm {
 		id := m.byPub[nodes[pos].Signer.PublicSpendKey]
@@ -199,7 +219,7 @@ func (m *memRig) anywhere(it *injected) int {
 
 // ordinary injects a deposit snapshot on a chain of an accepted member.
 func (m *memRig) ordinary(sel int) *injected {
-	acc := m.accepted()
+	acc := m.leaders()
 	if len(acc) == 0 {
 		return nil
 	}
@@ -231,6 +251,21 @@ func (m *memRig) accepted() []*memIdent {
 		}
 		return out[i].id.String() < out[j].id.String()
 	})
+	return out
+}
+
+// leaders are the accepted members that can lead snapshots on their own chain
+// now: genesis members, and members accepted long enough ago to take part in
+// consensus (an honest network certifies nothing on the chain of a member that
+// is not consensus-ready yet).
+func (m *memRig) leaders() []*memIdent {
+	var out []*memIdent
+	epoch := uint64(m.c.Epoch.UnixNano())
+	for _, id := range m.accepted() {
+		if id.since == epoch || id.since+uint64(config.KernelNodeAcceptPeriodMinimum)+uint64(time.Minute) < m.now() {
+			out = append(out, id)
+		}
+	}
 	return out
 }
 
@@ -287,7 +322,7 @@ func (m *memRig) placeOn(owner crypto.Hash, tx *common.VersionedTransaction, exp
 
 // xinCoin finalizes a XIN deposit of exactly the pledge amount.
 func (m *memRig) xinCoin() *cluster.Coin {
-	acc := m.accepted()
+	acc := m.leaders()
 	m.seq++
 	tx, coin := m.c.MakeDeposit(cluster.AssetXIN, common.KernelNodePledgeAmount, fmt.Sprintf("pledge-fund-%d", m.seq), 0, []int{0}, 1)
 	it := m.placeOn(acc[m.rng.IntN(len(acc))].id, tx, true)
@@ -629,10 +664,75 @@ func (m *memRig) dayOf(ts uint64) uint64 {
 	return (ts - uint64(m.c.Epoch.UnixNano())) / uint64(24*time.Hour)
 }
 
+// ordinaryOn injects a deposit snapshot on the chain of one member,
+// optionally closing its head round first.
+func (m *memRig) ordinaryOn(id *memIdent, newRound bool) *injected {
+	ch := m.inj.chainFor(id.id)
+	if ch == nil {
+		return nil
+	}
+	m.inj.now = m.now()
+	it, err := m.inj.nextWith(m.inj.chainIndex(id.id), newRound && len(ch.snaps) > 0, nil)
+	if err != nil {
+		return nil
+	}
+	m.send(it)
+	m.applied = append(m.applied, it)
+	return it
+}
+
+// lap makes every accepted member lead one snapshot in a round of its own.
+func (m *memRig) lap() bool {
+	var last []*injected
+	for _, id := range m.leaders() {
+		if it := m.ordinaryOn(id, true); it != nil {
+			last = append(last, it)
+		}
+	}
+	for _, it := range last {
+		if !m.settle(it, 20*time.Second) {
+			return false
+		}
+	}
+	// the next lap opens new rounds: let a full round gap pass
+	m.c.Run(m.c.Q.Now + time.Duration(config.SnapshotRoundGap) + 200*time.Millisecond)
+	return true
+}
+
+// prepareMint manufactures what the universal mint of the coming day needs:
+// every accepted member leads rounds on the day before (work credits of day
+// D-1) and three rounds on day D before the mint hours (work credits of day D
+// and a round-space checkpoint in batch D), then the real work and round-space
+// aggregators of every node catch up.
+func (m *memRig) prepareMint() bool {
+	m.jumpTo(1+m.rng.IntN(4), 0)
+	for i := 0; i < 2; i++ {
+		if !m.lap() {
+			return false
+		}
+	}
+	m.jumpTo(1+m.rng.IntN(4), 18*time.Hour)
+	for i := 0; i < 3; i++ {
+		if !m.lap() {
+			return false
+		}
+	}
+	m.c.AggregateAll(12)
+	return !m.c.Halt
+}
+
 // mint performs the valid universal mint of the current day (possible only
 // after the legacy period, i.e. for histories that start late enough).
 func (m *memRig) mint() bool {
-	m.jumpTo(config.KernelMintTimeBegin+m.rng.IntN(config.KernelMintTimeEnd-config.KernelMintTimeBegin+1), 0)
+	if m.dayOf(m.now()) <= 1707 {
+		m.r.out.Probes["mint_before_legacy_end"]++
+		return false
+	}
+	if !m.prepareMint() {
+		m.r.out.Probes["mint_preparation_failed"]++
+		return false
+	}
+	m.jumpTo(config.KernelMintTimeBegin+m.rng.IntN(config.KernelMintTimeEnd-config.KernelMintTimeBegin), 0)
 	ts := m.now()
 	ref := m.ref()
 	tx := ref.Node.SimBuildMint(ts)
@@ -641,13 +741,23 @@ func (m *memRig) mint() bool {
 		return false
 	}
 	elected := ref.Node.SimElect(common.TransactionTypeMint, ts)
+	who := m.identOf(elected)
+	if who == nil {
+		return false
+	}
+	signed := &common.SignedTransaction{Transaction: tx.Transaction}
+	if err := signed.SignRaw(who.signer.PrivateSpendKey); err != nil {
+		return false
+	}
+	tx = signed.AsVersioned()
 	it := m.placeOn(elected, tx, true)
 	if it == nil || !m.settle(it, 20*time.Second) {
 		m.r.out.Probes["valid_mint_not_applied"]++
 		return false
 	}
+	m.applied = append(m.applied, it)
 	m.mintDay = m.dayOf(it.snap.Timestamp)
-	m.record("mint", m.identOf(elected), it)
+	m.record("mint", who, it)
 	return true
 }
 
@@ -755,7 +865,7 @@ func (m *memRig) custTx(account common.Address, extra []byte, coin *cluster.Coin
 
 // fund finalizes a XIN deposit of the given amount owned by user 0.
 func (m *memRig) fund(amount common.Integer) *cluster.Coin {
-	acc := m.accepted()
+	acc := m.leaders()
 	m.seq++
 	tx, coin := m.c.MakeDeposit(cluster.AssetXIN, amount, fmt.Sprintf("fund-%d", m.seq), 0, []int{0}, 1)
 	it := m.placeOn(acc[m.rng.IntN(len(acc))].id, tx, true)
